@@ -82,6 +82,26 @@ func TestVerifC04Dns64(t *testing.T) {
 			emitted += vC04Dns64History(out, r, 1<<20, scn)
 		}
 	}
+	// the replies dns64 RELAYS (A-basis of RFC 6147 5.1.6, PTR translation of 5.3.1): fixed scenarios
+	// of dns64relay.jsonl, then generated histories for about a quarter of the budget
+	relayN := n / 4
+	relayed := 0
+	if raw, err := os.ReadFile(filepath.Join(os.Getenv("VERIF_CORPUS"), "dns64relay.jsonl")); err == nil {
+		for _, line := range strings.Split(string(raw), "\n") {
+			if line = strings.TrimSpace(line); line == "" || strings.HasPrefix(line, "#") {
+				continue
+			}
+			scn := new(vC04RelayScn)
+			if err := json.Unmarshal([]byte(line), scn); err != nil {
+				t.Fatalf("corpus dns64relay.jsonl: %v", err)
+			}
+			relayed += vC04Dns64Relay(out, r, 1<<20, scn)
+		}
+	}
+	for relayed < relayN {
+		relayed += vC04Dns64Relay(out, r, relayN-relayed, nil)
+	}
+	emitted += relayed
 	for emitted < n {
 		emitted += vC04Dns64History(out, r, n-emitted, nil)
 	}
@@ -443,6 +463,433 @@ func vC04Dns64History(out *vC04Out, r *rand.Rand, budget int, scn *vC04D64Scn) i
 				strings.Join(addrs, "; "), strings.Join(via, "; "), vC04Z(t0), vC04Z(t1), bobs, strings.Join(obs, "; "), strings.Join(cobs, "; ")),
 			"desc": map[string]any{"route": route, "reply": resp.String(), "went_downstream": env.stub.calls}})
 		emitted++
+	}
+	if emitted == 0 {
+		return 1
+	}
+	return emitted
+}
+
+// ---------------------------------------------------------------- the replies dns64 relays
+
+// vC04RelayScn is one scenario of the relayed reply shapes (fixed ones in corpus/C04/dns64relay.jsonl,
+// generated ones drawn from the seed): mode "basis" = the A sub-answer has no address, so it becomes
+// the basis of the reply (buildAResponseAsBasis); mode "ptr" = an ip6.arpa PTR question under the
+// Pref64 is answered with a synthesised CNAME plus the PTR records of the in-addr.arpa sub-query.
+type vC04RelayScn struct {
+	Name     string `json:"name"`
+	Mode     string `json:"mode"`
+	NegSOA   bool   `json:"neg_soa"` // AAAA NODATA with an SOA (soa_ttl, soa_min) or bare
+	SoaTTL   uint32 `json:"soa_ttl"`
+	SoaMin   uint32 `json:"soa_min"`
+	NegLease int    `json:"neg_lease_s"`
+	ABare    bool   `json:"a_bare"` // the terminal A answer is NODATA without an SOA
+	ASoaTTL  uint32 `json:"a_soa_ttl"`
+	ASoaMin  uint32 `json:"a_soa_min"`
+	ALease   int    `json:"a_lease_s"`
+	Alias    bool   `json:"alias"`
+	CnameTTL uint32 `json:"cname_ttl"`
+	TLease   int    `json:"target_lease_s"`
+	PtrTTL   uint32 `json:"ptr_ttl"`
+	PtrN     int    `json:"ptr_n"` // 0: the in-addr.arpa name does not exist (CNAME only)
+	PtrLease int    `json:"ptr_lease_s"`
+	Steps    []struct {
+		Op    string `json:"op"` // ask | shift | drop-a | drop-aaaa | drop-t | drop-ptr
+		Route int    `json:"route"`
+		Ms    int    `json:"ms"`
+	} `json:"steps"`
+}
+
+func vC04Dns64Relay(out *vC04Out, r *rand.Rand, budget int, scn *vC04RelayScn) int {
+	env := vC04NewEnv(0, 0, 600)
+	defer env.close()
+	k := env.k
+	dcfg := &config.Config{}
+	dcfg.DNS64 = config.DNS64Config{Enabled: true, Prefixes: []string{"2001:db8:64::/96"}}
+	d := dns64.New(dcfg)
+	if d == nil {
+		panic("dns64 disabled")
+	}
+	d.SetQueryer(env.sub)
+	name, target := "b64.c04.test.", "u64.c04.test."
+	ptrQ, _ := dns.ReverseAddr("2001:db8:64::c000:221")
+	ptrT, _ := dns.ReverseAddr("192.0.2.33")
+	ttls := []uint32{1, 4, 7, 30, 60, 300, 601, 3600}
+	p := scn
+	generated := scn == nil
+	if generated {
+		rndLease := func() int {
+			if r.Intn(3) == 0 {
+				return 3 + r.Intn(100)
+			}
+			return 0
+		}
+		p = &vC04RelayScn{Mode: []string{"basis", "basis", "ptr"}[r.Intn(3)], NegSOA: r.Intn(4) > 0, SoaTTL: ttls[r.Intn(len(ttls))], SoaMin: ttls[r.Intn(len(ttls))],
+			NegLease: rndLease(), ABare: r.Intn(4) == 0, ASoaTTL: ttls[r.Intn(len(ttls))], ASoaMin: ttls[r.Intn(len(ttls))], ALease: rndLease(),
+			Alias: r.Intn(3) == 0, CnameTTL: ttls[r.Intn(len(ttls))], TLease: rndLease(), PtrTTL: ttls[r.Intn(len(ttls))], PtrN: r.Intn(3), PtrLease: rndLease()}
+	}
+	ptr := p.Mode == "ptr"
+	lease := func(sc *vC04Script, secs int) {
+		if secs != 0 {
+			sc.hasCut, sc.cut = true, k.now()+int64(time.Duration(secs)*time.Second)
+		}
+	}
+	script := func() {
+		if ptr {
+			m := new(dns.Msg)
+			m.SetQuestion(ptrT, dns.TypePTR)
+			m.Response = true
+			if p.PtrN == 0 {
+				m.Rcode = dns.RcodeNameError
+				m.Ns = []dns.RR{vC04SOA("2.0.192.in-addr.arpa.", p.PtrTTL, p.PtrTTL)}
+			}
+			for i := 0; i < p.PtrN; i++ {
+				m.Answer = append(m.Answer, &dns.PTR{Hdr: dns.RR_Header{Name: ptrT, Rrtype: dns.TypePTR, Class: dns.ClassINET, Ttl: p.PtrTTL}, Ptr: fmt.Sprintf("host%d.c04.test.", i)})
+			}
+			sc := &vC04Script{resp: m}
+			lease(sc, p.PtrLease)
+			env.stub.script[ptrT+"|PTR"] = sc
+			return
+		}
+		neg := new(dns.Msg)
+		neg.SetQuestion(name, dns.TypeAAAA)
+		neg.Response = true
+		if p.NegSOA {
+			neg.Ns = []dns.RR{vC04SOA("c04.test.", p.SoaTTL, p.SoaMin)}
+		}
+		sn := &vC04Script{resp: neg}
+		lease(sn, p.NegLease)
+		env.stub.script[name+"|AAAA"] = sn
+		term := new(dns.Msg)
+		term.Response = true
+		if !p.ABare {
+			term.Ns = []dns.RR{vC04SOA("c04.test.", p.ASoaTTL, p.ASoaMin)}
+		}
+		if p.Alias {
+			a := new(dns.Msg)
+			a.SetQuestion(name, dns.TypeA)
+			a.Response = true
+			a.Answer = []dns.RR{&dns.CNAME{Hdr: dns.RR_Header{Name: name, Rrtype: dns.TypeCNAME, Class: dns.ClassINET, Ttl: p.CnameTTL}, Target: target}}
+			sa := &vC04Script{resp: a}
+			lease(sa, p.ALease)
+			env.stub.script[name] = sa
+			term.SetQuestion(target, dns.TypeA)
+			term.Response = true
+			st := &vC04Script{resp: term}
+			lease(st, p.TLease)
+			env.stub.script[target] = st
+		} else {
+			term.SetQuestion(name, dns.TypeA)
+			term.Response = true
+			sa := &vC04Script{resp: term}
+			lease(sa, p.ALease)
+			env.stub.script[name] = sa
+		}
+	}
+	script()
+	keys := []uint64{vC04KeyT(name, dns.TypeAAAA), vC04KeyT(name, dns.TypeA), vC04KeyT(target, dns.TypeA), vC04KeyT(ptrT, dns.TypePTR)}
+	drop := func(i int) {
+		env.c.positive.Remove(keys[i])
+		env.c.negative.Remove(keys[i])
+	}
+	emitted := 0
+	nops := 5 + r.Intn(8)
+	if !generated {
+		nops = len(scn.Steps)
+	}
+	for op := 0; op < nops && emitted < budget; op++ {
+		route := r.Intn(3)
+		if !generated {
+			st := scn.Steps[op]
+			route = st.Route
+			switch st.Op {
+			case "shift":
+				vC04Shift(env.c, k, time.Duration(st.Ms)*time.Millisecond)
+				continue
+			case "drop-aaaa":
+				drop(0)
+				continue
+			case "drop-a":
+				drop(1)
+				continue
+			case "drop-t":
+				drop(2)
+				continue
+			case "drop-ptr":
+				drop(3)
+				continue
+			case "ask":
+			default:
+				panic("corpus dns64relay.jsonl: unknown op " + st.Op)
+			}
+		} else {
+			x := r.Intn(10)
+			switch {
+			case x == 0:
+				script()
+				continue
+			case x == 1:
+				drop(r.Intn(4)) // pieces of differing ages
+				continue
+			case x < 5:
+				var ends []int64
+				for _, key := range keys {
+					if e := env.peek(key); e != nil {
+						end := e.stored.Add(e.ttl)
+						if !e.cutUntil.IsZero() && e.cutUntil.Before(end) {
+							end = e.cutUntil
+						}
+						ends = append(ends, k.virt(end))
+					}
+				}
+				now := k.now()
+				tgt := now + int64(time.Duration(r.Intn(4000))*time.Millisecond)
+				if len(ends) > 0 && r.Intn(3) > 0 {
+					tgt = ends[r.Intn(len(ends))] + []int64{-2600, -1400, -300, 300}[r.Intn(4)]*int64(time.Millisecond)
+				}
+				if tgt > now {
+					vC04Shift(env.c, k, time.Duration(tgt-now))
+				}
+				continue
+			}
+		}
+		pre := make([]*CacheEntry, len(keys))
+		for i, key := range keys {
+			pre[i] = env.peek(key)
+		}
+		req := new(dns.Msg)
+		if ptr {
+			req.SetQuestion(ptrQ, dns.TypePTR)
+		} else {
+			req.SetQuestion(name, dns.TypeAAAA)
+		}
+		req.RecursionDesired = true
+		writer := mock.NewWriter("udp", "198.51.100.77:40000")
+		env.stub.calls = nil
+		var ch *middleware.Chain
+		ctx := context.Background()
+		meta := new(middleware.ResponseMeta)
+		switch route {
+		case 0:
+			ch = middleware.NewChain([]middleware.Handler{d, env.c, env.stub})
+			ch.Reset(writer, req)
+			ctx = middleware.WithResponseMeta(ctx, meta)
+		case 1:
+			ch = middleware.NewChain([]middleware.Handler{d, env.c, env.stub})
+			ch.Reset(writer, req)
+			meta = &ch.Meta
+		default:
+			req.SetEdns0(1232, false)
+			raw, err := req.Pack()
+			if err != nil {
+				panic(err)
+			}
+			wreq := new(middleware.Request)
+			if !wreq.ParseWire(raw, time.Now(), nil) {
+				panic("wire request refused")
+			}
+			ch = middleware.NewChain([]middleware.Handler{env.e, d, env.c, env.stub})
+			ch.ResetWire(writer, wreq)
+			ch.AllowDirectPack()
+			meta = nil
+		}
+		t0 := k.now()
+		ch.Next(ctx)
+		t1 := k.now()
+		bobs := "None"
+		if meta != nil {
+			cut, _ := meta.Cut()
+			bobs = "(Some " + vC04OZ(!cut.IsZero(), k.virt(cut)) + ")"
+		}
+		if !writer.Written() {
+			continue
+		}
+		resp := writer.Msg()
+		stubbed := map[string]bool{}
+		for _, c := range env.stub.calls {
+			stubbed[c] = true
+		}
+		live := func(e *CacheEntry) bool { return e != nil && e.remaining(k.real(t1)) > 0 }
+		amb := false
+		for _, e := range pre {
+			if e == nil {
+				continue
+			}
+			r0, r1 := e.remaining(k.real(t0)), e.remaining(k.real(t1))
+			if (r0 > 0) != (r1 > 0) || (r0 > 0 && r0/time.Second != r1/time.Second) {
+				amb = true
+			}
+		}
+		if amb {
+			out.emit(map[string]any{"inconclusive": true})
+			continue
+		}
+		// a consulted answer is fresh when its question reached the scripted downstream, otherwise
+		// it is the snapshot entry; every record of the reply is attributed to the answer it is in
+		type src struct {
+			coq   string // the piece when it is a cache hit
+			fresh *vC04Script
+			e     *CacheEntry
+			msg   *dns.Msg // the answer's records (script or stored message)
+		}
+		mk := func(i int, stubKey string) *src {
+			if stubbed[stubKey] {
+				sc := env.stub.script[stubKey]
+				return &src{fresh: sc, msg: sc.resp}
+			}
+			if live(pre[i]) {
+				return &src{e: pre[i], msg: pre[i].storedMsg(), coq: vC04PieceCoq(k, pre[i], 0, nil)}
+			}
+			return nil
+		}
+		var consulted []*src
+		var gate *src
+		if ptr {
+			if s := mk(3, ptrT+"|PTR"); s != nil {
+				consulted = append(consulted, s)
+			}
+		} else {
+			gate = mk(0, name+"|AAAA")
+			if gate == nil {
+				continue
+			}
+			consulted = append(consulted, gate)
+			if s := mk(1, name); s != nil {
+				consulted = append(consulted, s)
+			}
+			if s := mk(2, target); s != nil && p.Alias {
+				consulted = append(consulted, s)
+			}
+		}
+		find := func(rr dns.RR) (string, bool) {
+			for _, s := range consulted {
+				if s == gate {
+					continue
+				}
+				for _, sec := range [][]dns.RR{s.msg.Answer, s.msg.Ns, s.msg.Extra} {
+					for _, x := range sec {
+						if x.Header().Rrtype == rr.Header().Rrtype && strings.EqualFold(x.Header().Name, rr.Header().Name) {
+							if s.fresh != nil {
+								return vC04PieceCoq(k, nil, x.Header().Ttl, s.fresh), true
+							}
+							return s.coq, true
+						}
+					}
+				}
+			}
+			return "", false
+		}
+		var obs, recs []string
+		shape := true
+		var relayed []dns.RR
+		for si, sec := range [][]dns.RR{resp.Answer, resp.Ns, resp.Extra} {
+			for i, rr := range sec {
+				if rr.Header().Rrtype == dns.TypeOPT {
+					continue
+				}
+				obs = append(obs, fmt.Sprint(rr.Header().Ttl))
+				if ptr && si == 0 && i == 0 {
+					if rr.Header().Rrtype != dns.TypeCNAME {
+						shape = false
+					}
+					continue // the synthesised CNAME: no piece
+				}
+				pc, ok := find(rr)
+				if !ok {
+					shape = false
+				}
+				recs = append(recs, pc)
+				relayed = append(relayed, rr)
+			}
+		}
+		if !ptr {
+			for _, rr := range resp.Answer {
+				if t := rr.Header().Rrtype; t == dns.TypeAAAA || t == dns.TypeA {
+					shape = false // not the A-basis shape
+				}
+			}
+		}
+		if !shape || len(obs) == 0 {
+			if os.Getenv("VERIF_C04_DEBUG") != "" {
+				fmt.Fprintf(os.Stderr, "relay: unattributed reply (mode %s route %d)\n%v\ncalls %v\n", p.Mode, route, resp, env.stub.calls)
+			}
+			continue
+		}
+		var cons []string
+		for _, s := range consulted {
+			if s.fresh != nil {
+				cons = append(cons, vC04PieceCoq(k, nil, 0, s.fresh))
+			} else {
+				cons = append(cons, s.coq)
+			}
+		}
+		// Go-side oracle (the statement): a relayed record never outlives the cached answer it was copied from
+		fail := ""
+		for _, rr := range relayed {
+			for _, s := range consulted {
+				if s.e == nil || s == gate {
+					continue
+				}
+				in := false
+				for _, sec := range [][]dns.RR{s.msg.Answer, s.msg.Ns, s.msg.Extra} {
+					for _, x := range sec {
+						if x.Header().Rrtype == rr.Header().Rrtype && strings.EqualFold(x.Header().Name, rr.Header().Name) {
+							in = true
+						}
+					}
+				}
+				if left := s.e.remaining(k.real(t0)); in && time.Duration(rr.Header().Ttl)*time.Second > left {
+					fail = fmt.Sprintf("relayed %s TTL %d exceeds the %v left of the cached answer it was copied from", dns.TypeToString[rr.Header().Rrtype], rr.Header().Ttl, left)
+				}
+			}
+		}
+		mode, kk := 0, fmt.Sprintf("dns64-basis-route%d", route)
+		if ptr {
+			mode, kk = 2, fmt.Sprintf("dns64-ptr-route%d", route)
+			if len(relayed) == 0 {
+				kk += "-cnameonly"
+			}
+		}
+		if !generated {
+			kk = "corpus-" + kk
+		}
+		gateCoq := "None"
+		if gate != nil {
+			if gate.fresh != nil {
+				gateCoq = "(Some " + vC04PieceCoq(k, nil, 0, gate.fresh) + ")"
+			} else {
+				gateCoq = "(Some " + gate.coq + ")"
+				kk += "-gatecached"
+			}
+		}
+		for _, s := range consulted {
+			if s != gate && s.e != nil {
+				kk += "-cached"
+				break
+			}
+		}
+		if p.Alias && !ptr {
+			kk += "-alias"
+		}
+		body := fmt.Sprintf("%s [%s] [%s] %s %s %s [%s]%%Z", gateCoq, strings.Join(recs, "; "), strings.Join(cons, "; "), vC04Z(t0), vC04Z(t1), bobs, strings.Join(obs, "; "))
+		out.emit(map[string]any{"k": kk, "nontrivial": true, "go_fail": fail, "coq": fmt.Sprintf("CDns64Relay %d %s", mode, body),
+			"desc": map[string]any{"route": route, "reply": resp.String(), "went_downstream": env.stub.calls}})
+		emitted++
+		// the gating AAAA answer contributes no record to an A-basis reply; whether the reply is
+		// inside ITS lifetime is judged by a twin case of its own (mode 1: that clause alone)
+		if gate != nil && gate.e != nil {
+			left := gate.e.remaining(k.real(t0))
+			gfail, fkey := "", ""
+			for _, rr := range relayed {
+				if time.Duration(rr.Header().Ttl)*time.Second > left {
+					gfail = fmt.Sprintf("A-basis reply relays %s with TTL %d while the cached AAAA answer that gated it has %v left", dns.TypeToString[rr.Header().Rrtype], rr.Header().Ttl, left)
+					fkey = "dns64-abasis-gate"
+				}
+			}
+			out.emit(map[string]any{"k": kk + "-gateclause", "nontrivial": true, "go_fail": gfail, "fkey": fkey, "coq": fmt.Sprintf("CDns64Relay 1 %s", body),
+				"desc": map[string]any{"route": route, "reply": resp.String(), "went_downstream": env.stub.calls}})
+			emitted++
+		}
 	}
 	if emitted == 0 {
 		return 1
